@@ -74,6 +74,7 @@ inductive Op
   | get (r : Nat) (a : U16) | set (r : Nat) (a : U16) (v : U8) | put (r : Nat) (a : U16) (data : List U8)
   | inp (r : Nat) (p : U8) | out (r : Nat) (p : U8) (v : U8)
   | clone (r src : Nat) | clear (r : Nat) | equal (r a : Nat) | dump (r : Nat)
+  | putself (r : Nat) (dst : U16) (src n : Nat)      -- dm.Put(dst, dm[src:src+n]...): the data is a view of the receiver itself
 deriving Repr
 
 inductive Out
@@ -114,6 +115,18 @@ def step (w : World) : Op → World × Out
        | none => (w, .bad))
     | some (.mm (some i)) => (match w.map? i with | some m => (w.store i (.map (mapPut m a data)), .ok) | none => (w, .bad))
     | some (.mm none) => (w, if data.isEmpty then .ok else .panic)
+    | _ => (w, .bad)
+  | .putself r dst src n =>
+    -- the argument slice is evaluated (a view of the backing array) and then copied with memmove semantics: what is stored is what the
+    -- view showed BEFORE the call, however the two ranges overlap
+    match w.var r with
+    | some (.dm i) =>
+      (match w.slice? i with
+       | some l =>
+         if src + n ≤ l.length then
+           (match slicePut l dst.toNat ((l.drop src).take n) with | some l' => (w.store i (.slice l'), .ok) | none => (w, .panic))
+         else (w, .bad)
+       | none => (w, .bad))
     | _ => (w, .bad)
   | .inp r p =>
     match w.var r with
